@@ -70,9 +70,22 @@ def dump(e):
     return repr(e)
 
 
+VIA = H.P('via', 'plain')
+STMT_OPTIONS = {'yaql.limitIterators': 1000}
+
+
+def parse(engine, text):
+    """the three public routes from a text to a statement on one engine"""
+    if VIA == 'options':
+        return engine(text, options=dict(STMT_OPTIONS))
+    if VIA == 'copy':
+        return engine.copy(dict(STMT_OPTIONS))(text)
+    return engine(text)
+
+
 def outcome(engine, text):
     try:
-        return ('ok', dump(engine(text)))
+        return ('ok', dump(parse(engine, text)))
     except exceptions.YaqlParsingException as e:
         return ('err', type(e).__name__, repr(getattr(e, 'value', None)), getattr(e, 'position', None), str(e))
 
@@ -344,25 +357,36 @@ def eval_cache(i: int, j: int) -> bool:
 def conditions(tier, seed):
     out = []
     if tier == 'quick':
-        combos = [('default', 'q', False)]
+        combos = [('default', 'q', False, 'plain'), ('default', 'q', False, 'options')]
     else:
-        combos = [('default', 't', False), ('default', 'q', True), ('legacy', 'q', False), ('custom', 'q', False)]
-    for eng, pool, two in combos:
+        combos = [('default', 't', False, 'plain'), ('default', 'q', True, 'plain'), ('legacy', 'q', False, 'plain'),
+                  ('custom', 'q', False, 'plain'), ('default', 'q', False, 'options'), ('default', 'q', False, 'copy')]
+    for eng, pool, two, via in combos:
         n = len(POOL_T if pool == 't' else POOL_Q)
         for dom in ('D1', 'D2'):
+          if via != 'plain' and dom == 'D2' and tier == 'quick':
+            continue
           step = (7 if dom == 'D1' else 3) if not two else 1
           for lo in range(0, n, step):
-            out.append({'name': 'isolated[%s,%s,pool=%s%s,texts=%d-%d]' % (eng, dom, pool, ',two' if two else '', lo, min(n, lo + step) - 1),
+            out.append({'name': 'isolated[%s,%s,pool=%s%s%s,texts=%d-%d]' % (eng, dom, pool, ',two' if two else '',
+                                                                             '' if via == 'plain' else ',via=' + via, lo, min(n, lo + step) - 1),
                         'func': 'isolated', 'timeout': 300 if tier == 'quick' else 1500,
-                        'param': {'engine': eng, 'pool': pool, 'domain': dom, 'two': two, 'ilo': lo, 'ihi': lo + step},
-                        'bounds': '%d pool texts, interference at fetch k in [0,8]%s, lexdata len<=3, %s, %s engine' % (
+                        'param': {'engine': eng, 'pool': pool, 'domain': dom, 'two': two, 'ilo': lo, 'ihi': lo + step, 'via': via},
+                        'bounds': '%d pool texts, interference at fetch k in [0,8]%s, lexdata len<=3, %s, %s engine, %s' % (
                             n, ' and k2' if two else '',
                             'lexpos=0 (state right after another thread\'s Lexer.input)' if dom == 'D1' else
-                            'lexpos in [0,len+1], parser stacks replaced', eng)})
-    for eng, pool, two in combos:
+                            'lexpos in [0,len+1], parser stacks replaced', eng,
+                            {'plain': 'engine(text)', 'options': 'engine(text, options=...)', 'copy': 'engine.copy(options)(text)'}[via])})
+    for eng, pool, two, via in combos:
         if two:
             continue
         n = len(POOL_T if pool == 't' else POOL_Q)
+        if via != 'plain':
+            out.append({'name': 'history[%s,pool=%s,via=%s]' % (eng, pool, via), 'func': 'history', 'timeout': 300,
+                        'param': {'engine': eng, 'pool': pool, 'via': via},
+                        'bounds': 'ordered pairs of the %d pool texts parsed one after the other on one long-lived engine '
+                                  'through the per-statement-options route (selectors; each path one concrete history)' % n})
+            continue
         out.append({'name': 'history[%s,pool=%s]' % (eng, pool), 'func': 'history', 'timeout': 300,
                     'param': {'engine': eng, 'pool': pool},
                     'bounds': 'ordered pairs of the %d pool texts parsed one after the other on one long-lived engine '
@@ -376,6 +400,14 @@ def conditions(tier, seed):
                         'bounds': 'at fetch k in [0,8] every attribute of the engine/lexer/parser/rule objects/yaql modules '
                                   'that a parse was observed to write is replaced by the value left by the parse of pool '
                                   'text h (symbolic)'})
+    for b0 in range(3):
+        qk = tier == 'quick'
+        out.append({'name': 'schedules[b0=%d]' % b0, 'func': 'schedules', 'timeout': 300 if qk else 1200,
+                    'param': dict({'pool': 'q', 'b0lo': b0, 'b0hi': b0}, **({'ihi': 6, 'kmax': 3} if qk else {})),
+                    'bounds': 'two real threads under the hand-off scheduler on one long-lived engine: %s pool texts as A x %d '
+                              'texts as B (4 of them failing) x B passes %d points first x A passes k in [0,%d] fetches, B runs to '
+                              'completion, A finishes (selectors; each path one concrete schedule)'
+                              % ('the first 6' if qk else 'all', len(SCHED_B), b0, 3 if qk else 4)})
     for ef in range(5):
       out.append({'name': 'other_engines[%d]' % ef, 'func': 'other_engines', 'timeout': 300, 'param': {'pool': 'q', 'efix': ef},
                 'bounds': 'every pool text x 1 of 5 other factories (legacy, custom operator, re-aliased = and !=, delegates, no keyword '
@@ -429,10 +461,10 @@ class Sched:
         return res
 
 
-def threaded(engine, text_a, text_b, k, j, text_c=None, jc=0):
-    """A starts and passes k token fetches, B runs j scheduling points (its start + fetches; j >= 40: to completion),
-    then optionally a third parse C runs jc points, A finishes, the others finish"""
-    sched = Sched(['A'] * (k + 1) + ['B'] * j + ['C'] * jc + ['A'] * 40 + ['B'] * 40 + ['C'] * 40)
+def threaded(engine, text_a, text_b, k, j, text_c=None, jc=0, b0=0):
+    """(B runs b0 scheduling points first;) A starts and passes k token fetches, B runs j scheduling points (its start +
+    fetches; j >= 40: to completion), then optionally a third parse C runs jc points, A finishes, the others finish"""
+    sched = Sched(['B'] * b0 + ['A'] * (k + 1) + ['B'] * j + ['C'] * jc + ['A'] * 40 + ['B'] * 40 + ['C'] * 40)
 
     def token(self):
         sched.point()
@@ -445,6 +477,27 @@ def threaded(engine, text_a, text_b, k, j, text_c=None, jc=0):
         return sched.run(jobs)
     finally:
         lex.Lexer.token = _orig_token
+
+
+SCHED_B = ['[1, 2', '1 +', "'abc", '$x.f(1)', '', '{a => 1}']
+SCHED_BOX = [(t,) for t in SCHED_B]
+POOLBOX = [(t,) for t in POOL]
+
+
+def schedules(i: int, b: int, b0: int, k: int) -> bool:
+    """
+    pre: 0 <= i < min(len(POOL), H.P('ihi', 99)) and 0 <= b < len(SCHED_B) and H.P('b0lo', 0) <= b0 <= H.P('b0hi', 2) and 0 <= k <= H.P('kmax', 4)
+    post: _
+    """
+    # two real threads on the long-lived engine under the hand-off scheduler: B (often a failing text) passes b0
+    # scheduling points, A starts and passes k token fetches, B runs to completion, A finishes; both must get what
+    # they get alone.  Each path is one concrete schedule chosen by the symbolic indices.
+    ta, tb, kk, bb = POOLBOX[i][0], SCHED_BOX[b][0], POSBOX[k][0], POSBOX[b0][0]   # realised by table lookup
+    with H.NoTracing():
+        res = threaded(ENG, ta, tb, kk, 40, b0=bb)
+        ok = res.get('A') == FRESH_BY_TEXT[ta] and res.get('B') == outcome(make_engine(ENGINE_KIND), tb) \
+            if tb not in FRESH_BY_TEXT else res.get('A') == FRESH_BY_TEXT[ta] and res.get('B') == FRESH_BY_TEXT[tb]
+    return H.done(ok)
 
 
 def stress(kind, pool, seconds=4.0, nthreads=4):
@@ -490,6 +543,21 @@ def replay(cond, args):
         return {'reproduced': not ok, 'key': 'C01/other-engine-changes-parse',
                 'what': 'engine(%r) changes after another engine was created from factory #%d (%s)' % (
                     pool[args['i']], args['e'], OTHER_FACTORIES[args['e']].__name__)}
+    if cond['func'] == 'schedules':
+        ta, tb = pool[args['i']], SCHED_B[args['b']]
+        fresh_a, fresh_b = outcome(make_engine(kind), ta), outcome(make_engine(kind), tb)
+        for prior in ([], list(pool)):
+            eng = make_engine(kind)
+            for t in prior:
+                outcome(eng, t)
+            res = threaded(eng, ta, tb, args['k'], 40, b0=args['b0'])
+            if res.get('A') != fresh_a or res.get('B') != fresh_b:
+                return {'reproduced': True, 'key': 'C01/shared-parser-interleaving',
+                        'what': 'engine history %s; B parses %r and passes %d scheduling points, A parses %r and passes %d token '
+                                'fetches, B runs to completion, A continues: A gets %r (alone: %r), B gets %r (alone: %r)'
+                                % ('[]' if not prior else 'the pool', tb, args['b0'], ta, args['k'], res.get('A'), fresh_a,
+                                   res.get('B'), fresh_b)}
+        return {'reproduced': False}
     if cond['func'] == 'history':
         eng = make_engine(kind)
         tj, ti = pool[args['j']], pool[args['i']]
